@@ -1,1 +1,32 @@
-From BW Require Import SpecList.
+(* C12 - Unbalanced block tags are a hard error, never a silent skip.
+   Property theorems only; proofs are in coq/proofs. *)
+From BW Require Import SpecBlocks.
+From BWP Require Import TextFacts Blocks_proofs.
+
+(* A tag sequence with no well-nested matching (an end tag with no open block, a start tag never closed, at any depth) makes the parse fail; no pairing is guessed. *)
+Theorem C12_unbalanced_is_error : forall ts,
+  (~ exists bs, Dyck ts bs) -> pair_tags ts [] [] = Err E_PARSE.
+Proof. exact unbalanced_is_error. Qed.
+Print Assumptions C12_unbalanced_is_error.
+
+(* The parse either returns blocks or fails with the parse error; there is no third outcome. *)
+Theorem C12_outcomes : forall ts,
+  (exists bs, pair_tags ts [] [] = Ok bs) \/ pair_tags ts [] [] = Err E_PARSE.
+Proof. exact pair_tags_outcomes. Qed.
+Print Assumptions C12_outcomes.
+
+(* Success implies the tags were balanced and the blocks are their matching. *)
+Theorem C12_ok_only_if_balanced : forall ts bs, pair_tags ts [] [] = Ok bs -> Dyck ts bs.
+Proof. exact pair_tags_sound. Qed.
+Print Assumptions C12_ok_only_if_balanced.
+
+(* The error of one file aborts the whole run, wherever the file sits among healthy ones. *)
+From BW Require Import Context.
+From BWGen Require Import ExtTable.
+From BWP Require Import Context_proofs.
+Theorem C12_error_aborts_scan : forall ext_map fs changes f e,
+  In f fs -> scanned f = true ->
+  parse_one ext_map f true (match changes_for (rf_path f) changes with Some l => l | None => [] end) = Some (Err e) ->
+  In e (cr_errs (build_context ext_map fs true changes)).
+Proof. exact scanned_error_reported. Qed.
+Print Assumptions C12_error_aborts_scan.
